@@ -4,8 +4,7 @@
    modelled alphabet).  `ser_expr` models exactly that and is proved injective (even prefix-free) on the filter
    expressions of the modelled fragment.  `ser_expr_unescaped` is the serialization before the repair
    (`{var}{op}'{value}'`), kept with its collision as a regression lemma.
-   Not proved: injectivity of the whole plan key (serialize_logical_plan); its other components are rendered with {:?}
-   of structured values or are grammar-restricted identifiers. *)
+   The whole plan key (serialize_logical_plan) is modelled and proved injective in MemoKeyPlan.v. *)
 Require Import KV.Sparql.Base KV.Sparql.Syntax KV.Sparql.PlanEquiv.
 Require Import Ascii DecimalString Decimal DecimalN.
 Local Open Scope string_scope.
